@@ -1,0 +1,14 @@
+//go:build verif
+
+package swamp
+
+// VerifCapMuFree reports whether the swamp's Cap serialisation mutex could be taken right now
+// (it is released again immediately). Verification builds only.
+func VerifCapMuFree(sw Swamp) bool {
+	s := sw.(*swamp)
+	if s.capMu.TryLock() {
+		s.capMu.Unlock()
+		return true
+	}
+	return false
+}
